@@ -5,6 +5,7 @@ package pullapi
 import (
 	"bytes"
 	"encoding/json"
+	"errors"
 	"fmt"
 	"net/http"
 	"net/http/httptest"
@@ -34,11 +35,85 @@ type LOp struct {
 	Dead  bool   `json:"dead,omitempty"`
 	Ms    int    `json:"ms,omitempty"`
 	Mode  string `json:"mode,omitempty"` // "" | pad | unknown | blank
+	// Fault > 0: the Fault-th lease mutation the store is asked for during this request fails with a
+	// transient error (nothing is applied by that call)
+	Fault int `json:"fault,omitempty"`
 }
 
 type LCase struct {
 	Backend string `json:"backend"`
-	Ops     []LOp  `json:"ops"`
+	// NoBatch: the store offered to the handler has no batch lease mutations (the handler then loops
+	// over the single forms)
+	NoBatch bool  `json:"no_batch,omitempty"`
+	Ops     []LOp `json:"ops"`
+}
+
+var errLInjected = errors.New("verif: injected store failure")
+
+// lFaultStore fails the n-th lease mutation after arm(n); every other call goes to the real store.
+type lFaultStore struct {
+	queue.Store
+	countdown int
+	hits      int
+}
+
+func (f *lFaultStore) arm(n int) { f.countdown = n }
+func (f *lFaultStore) disarm()   { f.countdown = 0 }
+func (f *lFaultStore) trip() bool {
+	if f.countdown > 0 {
+		f.countdown--
+		if f.countdown == 0 {
+			f.hits++
+			return true
+		}
+	}
+	return false
+}
+func (f *lFaultStore) Ack(l string) error {
+	if f.trip() {
+		return errLInjected
+	}
+	return f.Store.Ack(l)
+}
+func (f *lFaultStore) Nack(l string, d time.Duration) error {
+	if f.trip() {
+		return errLInjected
+	}
+	return f.Store.Nack(l, d)
+}
+func (f *lFaultStore) Extend(l string, d time.Duration) error {
+	if f.trip() {
+		return errLInjected
+	}
+	return f.Store.Extend(l, d)
+}
+func (f *lFaultStore) MarkDead(l string, r string) error {
+	if f.trip() {
+		return errLInjected
+	}
+	return f.Store.MarkDead(l, r)
+}
+
+// lFaultBatchStore adds the batch forms (what the real backends offer).
+type lFaultBatchStore struct{ *lFaultStore }
+
+func (f lFaultBatchStore) AckBatch(ids []string) (queue.LeaseBatchResult, error) {
+	if f.trip() {
+		return queue.LeaseBatchResult{}, errLInjected
+	}
+	return f.Store.(queue.LeaseBatchStore).AckBatch(ids)
+}
+func (f lFaultBatchStore) NackBatch(ids []string, d time.Duration) (queue.LeaseBatchResult, error) {
+	if f.trip() {
+		return queue.LeaseBatchResult{}, errLInjected
+	}
+	return f.Store.(queue.LeaseBatchStore).NackBatch(ids, d)
+}
+func (f lFaultBatchStore) MarkDeadBatch(ids []string, r string) (queue.LeaseBatchResult, error) {
+	if f.trip() {
+		return queue.LeaseBatchResult{}, errLInjected
+	}
+	return f.Store.(queue.LeaseBatchStore).MarkDeadBatch(ids, r)
 }
 
 type lClock struct{ ns atomic.Int64 }
@@ -73,6 +148,7 @@ func lSnapshot(st queue.Store) (map[string]lMsg, error) {
 func genLCase() *rapid.Generator[LCase] {
 	return rapid.Custom(func(t *rapid.T) LCase {
 		c := LCase{Backend: rapid.SampledFrom([]string{"memory", "sqlite"}).Draw(t, "backend")}
+		c.NoBatch = rapid.IntRange(0, 3).Draw(t, "no_batch") == 0
 		ref := rapid.Custom(func(t *rapid.T) int {
 			if rapid.Bool().Draw(t, "recent") {
 				return -1 - rapid.IntRange(0, 2).Draw(t, "back")
@@ -98,6 +174,9 @@ func genLCase() *rapid.Generator[LCase] {
 				op.Dead = op.K == "nack" && rapid.IntRange(0, 3).Draw(t, "dead") == 0
 				op.Ms = rapid.SampledFrom([]int{0, 0, 1000, 5000}).Draw(t, "ms")
 				op.Mode = rapid.SampledFrom([]string{"", "", "", "", "", "pad", "unknown", "blank"}).Draw(t, "mode")
+				if rapid.IntRange(0, 5).Draw(t, "fault") == 0 {
+					op.Fault = rapid.IntRange(1, 3).Draw(t, "fault_at")
+				}
 			case "adv":
 				op.Ms = rapid.SampledFrom([]int{1, 500, 999, 1000, 1001, 30000, 119999, 120000, 120001, 400000}).Draw(t, "ms")
 			case "cancel", "requeue":
@@ -138,7 +217,13 @@ func runLCase(c LCase) *lOutcome {
 	default:
 		st = queue.NewMemoryStore(queue.WithNowFunc(clk.Now))
 	}
-	srv := NewServer(st)
+	fs := &lFaultStore{Store: st}
+	var offered queue.Store = lFaultBatchStore{fs}
+	if c.NoBatch {
+		offered = fs
+		out.Labels["store-without-batch-forms"] = true
+	}
+	srv := NewServer(offered)
 	srv.now = clk.Now
 	srv.ResolveRoute = func(ep string) (string, bool) { return "/r", ep == "/pull/r" }
 	call := func(op string, body any) (*httptest.ResponseRecorder, map[string]any) {
@@ -258,7 +343,13 @@ func runLCase(c LCase) *lOutcome {
 			body["extend_by"] = fmt.Sprintf("%dms", op.Ms+1000)
 		}
 		opName := map[string]string{"ack": "ack", "nack": "nack", "ext": "extend"}[op.K]
+		hitsBefore := fs.hits
+		if op.Fault > 0 {
+			fs.arm(op.Fault)
+		}
 		rec, respBody := call(opName, body)
+		fs.disarm()
+		faulted := fs.hits > hitsBefore
 		after, _ := lSnapshot(st)
 		desc := fmt.Sprintf("%s %v at +%dms -> %d %s", opName, leases, (now-lT0.UnixNano())/1e6, rec.Code, strings.TrimSpace(rec.Body.String()))
 		if rec.Code == 400 {
@@ -354,6 +445,29 @@ func runLCase(c LCase) *lOutcome {
 				out.Failure = lfail("stale-lease-changed-message", i, "%s: message %s changed %+v -> %+v (present=%v) although no valid lease of it was presented", desc, id, b, a, inA)
 				return out
 			}
+		}
+		if faulted {
+			// one store call of this request failed: the consumer must not be told that everything
+			// went well, and whatever the request did apply before the failure counts as done
+			out.Labels["store-fault"] = true
+			out.NonTriv = true
+			if rec.Code/100 == 2 {
+				f := lfail("store-failure-answered-success", i, "%s: the store failed a lease mutation of this request, the answer is a success", desc)
+				f.Prop = "C04,C01"
+				out.Failure = f
+				return out
+			}
+			for _, e := range exps {
+				if !e.valid {
+					continue
+				}
+				b := before[e.holder.ID]
+				if a, inA := after[e.holder.ID]; !inA || a != b {
+					succeeded[e.lease+"/"+class] = true
+					out.Labels["store-fault-partial"] = true
+				}
+			}
+			continue
 		}
 		// status
 		if !op.Batch {
